@@ -234,7 +234,9 @@ class Ctx:
             cm = canon(c, mo) if canon else mo
             ci = canon(c, io) if canon else io
             why = None
-            if cm != ci:
+            if cm == ('unmodelled',):
+                self.dist['unmodelled:' + stream] += 1      # outside the modelled fragment: not compared
+            elif cm != ci:
                 self.disagreements += 1
                 why = 'implementation differs from the proved model (%s)' % stream
             if spec is not None:
